@@ -772,6 +772,11 @@ def setWrErr (w : World) (k : Nat) (broken : Bool) : World :=
   let p := getPipe w.pipes k
   { w with pipes := setPipe w.pipes k { p with w := { p.w with wrerr := true }, wrBroken := broken } }
 
+/-- a TRANSIENT write error: the next write on the pipe fails (with `BrokenPipe` iff `broken`), later ones succeed -/
+def setWrErrOnce (w : World) (k : Nat) (broken : Bool) : World :=
+  let p := getPipe w.pipes k
+  { w with pipes := setPipe w.pipes k { p with w := { p.w with wrerr := true, once := true }, wrBroken := broken } }
+
 /-- bytes written since the last look -/
 def takeWire (w : World) (k : Nat) : World × Bytes :=
   let p := getPipe w.pipes k
